@@ -7,7 +7,7 @@ ID = "C09"
 LEVEL = "exploration"
 RULE = ("ALL connected multigraphs (<=2 parallel links per pair, canonical under junction relabelling) on 1-2 sources + <=3 "
         "(quick) / <=4 (thorough) junctions with <=5 / <=6 links x EVERY subset of initially closed links x schedules of "
-        "<=1 (quick) / <=2 (thorough, small graphs) time controls toggling a link; variants with link 0 as head pump / TCV, and (graphs with <= 4 links; thorough <= 5) under the pressure-dependent demand model. "
+        "<=1 (quick; <=2 on graphs with <=3 links) / <=2 (thorough, small graphs) time controls toggling a link; variants with link 0 as head pump / TCV, and (graphs with <= 4 links; thorough <= 5) under the pressure-dependent demand model. "
         "oracle: reference reachability over reported statuses: isolated => demand=pressure=head=0 and zero flow on its "
         "links; connected => full requested demand and the run solves; no-tank graphs: every step equals the steady state "
         "of the same closed set. non-trivial: at least one junction isolated at some step and one connected at some step")
@@ -52,7 +52,8 @@ def cases(tier):
                     for closed in itertools.combinations(range(L), r):
                         closed = set(closed)
                         scheds = [()] + [((li, 3600),) for li in range(L)]
-                        if tier == "thorough" and small and L <= 4:
+                        if (tier == "thorough" and small and L <= 4) or L <= 3:
+                            # two toggles at different steps (e.g. a link opened while still cut off, its zone reconnected later)
                             scheds += [((a, 3600), (b, 7200)) for a in range(L) for b in range(L) if a != b]
                         for ev in scheds:
                             out.append(graph_spec(nf, k, edges, closed, ev, "pipe"))
